@@ -116,6 +116,8 @@ class PathEnum:
                 return ("const", cv)
             if v.get("k") == "zst":
                 return ("const", ())
+            if v.get("k") == "static":
+                return ("static", v["path"])
             return ("unknown", "const:" + str(v.get("k")))
         return ("unknown", k)
 
@@ -192,9 +194,10 @@ class PathEnum:
             for si, s in enumerate(b["stmts"]):
                 if s["k"] == "assign":
                     t = self.rvalue(env, s["rv"])
+                    lv_term = self.read_place(env, s["place"]) if s["place"]["proj"] else None
                     self._assign(env, s["place"], t)
                     self._track_ref(env, s["place"], s["rv"])
-                    events = events + [("assign", bb, si, pp.place_s(s["place"]), t)]
+                    events = events + [("assign", bb, si, pp.place_s(s["place"]), t, lv_term)]
                 elif s["k"] == "setdiscr":
                     events = events + [("setdiscr", bb, si, pp.place_s(s["place"]), s["vidx"])]
             t = b["term"]
